@@ -172,7 +172,11 @@ class Gen:
         if kind == "ret" and self.ret != "void" and depth > 0:
             return p + f"if ({self.cond(env)}) {{\n{p}  return {self.expr(self.ret, env)};\n{p}}}\n"
         if kind == "brk" and in_loop:
-            return p + f"if ({self.cond(env)}) {{\n{p}  {r.choice(['break', 'continue'])};\n{p}}}\n"
+            dead = ""
+            if r.random() < 0.25 and self.lvalues(env):
+                n_, t_ = r.choice(self.lvalues(env))
+                dead = f"{p}  {n_} = {self.expr(t_, env, 1)};\n"  # never executed: follows the jump in the same block
+            return p + f"if ({self.cond(env)}) {{\n{p}  {r.choice(['break', 'continue'])};\n{dead}{p}}}\n"
         return self.stmt(env, ind, depth, in_loop, "assign" if self.lvalues(env) else "decl")
 
     def vzoo(self, env, p):
